@@ -308,6 +308,10 @@ class Model:
         info = self.explore(head, tail)
         if info['overflow']:
             return 'either', 'overflow', None
+        if tail is not None and tail != head and not self.is_w(tail) and self.out_subs()[tail]:
+            # forml deliberately treats a placeholder as equal to a worker with the same output subscriptions: such a
+            # tail may be "found" at that worker; what the trace then does is not fixed by the property
+            return 'either', 'aliased-tail', tail if self.nodes[tail]['o'] <= 1 else None
         if tail is None:
             if info['cycle']:
                 return 'illegal', 'cycle', None
@@ -338,6 +342,12 @@ class Model:
         info = self.explore(head, tail, mappers=True, stop_at_tail=True)
         if info['overflow']:
             return 'either', 'overflow', [], set()
+        if not self.is_w(tail) and tail != head:
+            return 'either', 'future-tail', [], set()
+        if not self.is_w(head) and any(self.pub.get((head, k)) for k in range(self.nodes[head]['i'])):
+            # a connected placeholder head compares equal to the worker feeding it (same output subscriptions, by design
+            # of Node.__eq__): what the copy then takes for head/tail is not fixed by the property
+            return 'either', 'aliased-head', [], set()
         if info['cycle']:
             return 'illegal', 'cycle', [], set()
         # nodes on some head -> tail mapper path
